@@ -87,6 +87,9 @@ type SimReaderAt struct {
 	fault *ReadFault
 	calls int // ReadAt calls so far
 	Fired int // faults delivered
+	// OnRead, when set, is invoked with the call index before each read is
+	// served (cancellation triggers; single-task runs only)
+	OnRead func(idx int)
 }
 
 func NewSimReaderAt(img []byte, sched *Sched) *SimReaderAt {
@@ -121,7 +124,10 @@ func (r *SimReaderAt) FiredCount() int { return r.Fired }
 func (r *SimReaderAt) SetFault(f *ReadFault) { r.fault = f }
 
 func (r *SimReaderAt) ReadAt(p []byte, off int64) (int, error) {
-	_, fail, kind := r.tick()
+	idx, fail, kind := r.tick()
+	if r.OnRead != nil {
+		r.OnRead(idx)
+	}
 	r.sched.Yield(evRead, uint64(off)<<20^uint64(len(p)))
 	if fail {
 		r.sched.note(evFault, uint64(kind))
